@@ -348,6 +348,7 @@ func runC10(c c10Case) (*vh.Violation, vh.Outcome) {
 		case "fault":
 			sim.mu.Lock()
 			sim.faults[[]string{"eth_getTransactionReceipt", "eth_getBlockByNumber"}[o.A%2]] = 1 + o.B%4 // three failed head polls in a row end this incarnation of the watcher
+			sim.errText = transientTexts[o.C%len(transientTexts)]
 			sim.mu.Unlock()
 			out.Labels = append(out.Labels, "fault")
 			continue
@@ -636,7 +637,7 @@ func genC10(t *rapid.T) c10Case {
 		case "reorg":
 			return c10Op{K: "reorg", A: rapid.IntRange(0, 9).Draw(t, "tx"), B: rapid.IntRange(0, 5).Draw(t, "mode")}
 		case "fault":
-			return c10Op{K: "fault", A: rapid.IntRange(0, 1).Draw(t, "m"), B: rapid.SampledFrom([]int{0, 0, 0, 0, 0, 0, 0, 0, 1, 1, 1, 1, 1, 1, 1, 1, 2, 3}).Draw(t, "n")}
+			return c10Op{K: "fault", A: rapid.IntRange(0, 1).Draw(t, "m"), B: rapid.SampledFrom([]int{0, 0, 0, 0, 0, 0, 0, 0, 1, 1, 1, 1, 1, 1, 1, 1, 2, 3}).Draw(t, "n"), C: rapid.IntRange(0, 4).Draw(t, "text")}
 		}
 		return c10Op{K: "reobserve", A: rapid.IntRange(0, 9).Draw(t, "tx"), B: rapid.SampledFrom([]int{0, 0, 0, 1, 2, 15, 16}).Draw(t, "moves")}
 	})
